@@ -103,6 +103,8 @@ def scenarios(draw):
     sc["opts"] = ["--data_type", src.choice(["nanopore", "pacbio_ccs"]), "--no_gzip"]
     if src.bool(0.3):
         sc["opts"] += ["--count_exons"]
+    # the joint run keeps its saved read assignments and one more run is restarted from all of them at once
+    sc["restart"] = src.bool(0.35)
     return sc
 
 
@@ -190,6 +192,10 @@ def list_for(exps, files, path):
     return path
 
 
+RESTART_FILES = {"gene_counts.tsv", "transcript_counts.tsv", "transcript_model_counts.tsv", "gene_tpm.tsv",
+                 "transcript_tpm.tsv", "read_assignments.tsv", "transcript_models.gtf"}
+
+
 def evaluate(case, ctx):
     sc = case
     d = ctx.scratch()
@@ -203,7 +209,8 @@ def evaluate(case, ctx):
         else:
             inp = ["--bam_list", list_for(exps, files, os.path.join(d, "in", "joint.list"))]
         ctx.pipeline_runs += 1
-        code = run.run_fork(common + inp + ["-o", joint_out, "--threads", str(sc["threads"])],
+        code = run.run_fork(common + inp + ["-o", joint_out, "--threads", str(sc["threads"])] +
+                            (["--keep_tmp"] if sc.get("restart") else []),
                             os.path.join(d, "home_joint"), os.path.join(d, "joint.log"))
         if code != 0 and "Change experiment name" in open(os.path.join(d, "joint.log"), errors="replace").read():
             # repeated names that IsoQuant cannot replace are rejected with an explicit request to rename
@@ -263,6 +270,26 @@ def evaluate(case, ctx):
                 known_by_exp[e["name"]] = set(l.split('transcript_id "')[1].split('"')[0]
                                               for l in parse.data_lines(tm) if "\ttranscript\t" in l and
                                               not l.split('transcript_id "')[1].split('"')[0].startswith("transcript"))
+        if sc.get("restart") and not sc.get("short_reads"):
+            # experiments restarted together from their saved read assignments stay as separate as they were: the
+            # ungrouped tables of every experiment equal those of the joint run (the restarted run names them OUT<i>)
+            saves = [os.path.join(joint_out, e["final"], "aux", e["final"] + ".save") for e in exps]
+            rout = os.path.join(d, "restarted")
+            ctx.pipeline_runs += 1
+            rlog = os.path.join(d, "restarted.log")
+            code = run.run_fork(common + ["--read_assignments"] + saves + ["-o", rout, "--threads", str(sc["threads"])],
+                                os.path.join(d, "home_restart"), rlog)
+            if code != 0:
+                r = pipeline.Result(d, code, rout, {}, rlog)
+                ctx.violation("C10:restart-from-saved-assignments-fails:" + r.crash_signature().split("@")[0],
+                              {"log": r.log_tail(10)}, case)
+            else:
+                for i, e in enumerate(exps):
+                    for kind, f, det in compare.diff_dirs(joint_out, e["final"], rout, "OUT%d" % i, only=RESTART_FILES):
+                        ctx.violation("C10:restarted-experiment-differs-from-the-joint-run:%s:%s" % (kind, f),
+                                      {"experiment": e["final"], "position": i, "detail": det,
+                                       "unmapped": [x.get("unmapped", 0) for x in exps]}, case)
+                ctx.cls("restarted from %d saves" % len(exps))
         # combined tables
         import pandas as pd
         for level in ("gene", "transcript"):
